@@ -1,6 +1,253 @@
-"""Seeded source variants (AST/text edits on a scratch copy of /repo) used to validate the checkers."""
+"""Seeded source variants used to validate the checkers (thorough tier).  Variants are built in memory (an overlay of
+file contents handed to the program model); nothing is written under /repo or /verif.
+
+* neutral variants: behaviour-preserving rewrites (rename locals, shift line numbers, extract a sub-expression into
+  a local, swap an if/else by negating the test) -- a check must report exactly what it reports on the pristine tree;
+* breaking variants: the confirmed seeded changes under /verif/seeded (applied to a scratch copy of the touched
+  files) and AST-generated single-instance breakages -- the check of the property must report a new violation.
+"""
 from __future__ import annotations
+
+import ast
+import json
+import os
+import pathlib
+import random
+import shutil
+import subprocess
+import tempfile
+from concurrent.futures import ProcessPoolExecutor
+
+from sa.model import Program, repo_root
+
+VERIF = pathlib.Path(__file__).resolve().parent.parent
+
+
+# ----------------------------------------------------------------------------------------------- neutral rewrites
+class _RenameLocals(ast.NodeTransformer):
+    """rename the plain locals of every top-level function / method (not parameters, not names shared with globals)"""
+
+    def __init__(self, module_names: set, suffix="_rn"):
+        self.module_names = module_names
+        self.suffix = suffix
+        self.count = 0
+
+    def _rename_in(self, fn):
+        params = set()
+        for sub in ast.walk(fn):
+            if isinstance(sub, (ast.FunctionDef, ast.AsyncFunctionDef, ast.Lambda)):
+                a = sub.args
+                for x in a.posonlyargs + a.args + a.kwonlyargs:
+                    params.add(x.arg)
+                if a.vararg:
+                    params.add(a.vararg.arg)
+                if a.kwarg:
+                    params.add(a.kwarg.arg)
+        declared = {nm for sub in ast.walk(fn) if isinstance(sub, (ast.Global,)) for nm in sub.names}
+        inner_defs = {sub.name for sub in ast.walk(fn) if isinstance(sub, (ast.FunctionDef, ast.AsyncFunctionDef, ast.ClassDef)) and sub is not fn}
+        imported = set()
+        for sub in ast.walk(fn):
+            if isinstance(sub, (ast.Import, ast.ImportFrom)):
+                for al in sub.names:
+                    imported.add((al.asname or al.name).split(".")[0])
+        stored = {n.id for n in ast.walk(fn) if isinstance(n, ast.Name) and isinstance(n.ctx, (ast.Store, ast.Del))}
+        stored |= {h.name for h in ast.walk(fn) if isinstance(h, ast.ExceptHandler) and h.name}
+        targets = {n for n in stored if n not in params and n not in declared and n not in inner_defs and n not in imported
+                   and n not in self.module_names and not n.startswith("__") and n != "_"}
+        if not targets:
+            return
+        for n in ast.walk(fn):
+            if isinstance(n, ast.Name) and n.id in targets:
+                n.id = n.id + self.suffix
+                self.count += 1
+            elif isinstance(n, ast.Nonlocal):
+                n.names = [nm + self.suffix if nm in targets else nm for nm in n.names]
+            elif isinstance(n, ast.ExceptHandler) and n.name in targets:
+                n.name = n.name + self.suffix
+            elif isinstance(n, (ast.MatchAs, ast.MatchStar)) and n.name in targets:
+                n.name = n.name + self.suffix
+
+    def visit_Module(self, node):
+        for s in node.body:
+            if isinstance(s, (ast.FunctionDef, ast.AsyncFunctionDef)):
+                self._rename_in(s)
+            elif isinstance(s, ast.ClassDef):
+                for m in s.body:
+                    if isinstance(m, (ast.FunctionDef, ast.AsyncFunctionDef)):
+                        self._rename_in(m)
+        return node
+
+
+def rename_locals(src: str) -> tuple[str, int]:
+    tree = ast.parse(src)
+    module_names = set()
+    for s in tree.body:
+        if isinstance(s, (ast.FunctionDef, ast.ClassDef)):
+            module_names.add(s.name)
+        elif isinstance(s, ast.Assign):
+            for t in s.targets:
+                if isinstance(t, ast.Name):
+                    module_names.add(t.id)
+        elif isinstance(s, ast.AnnAssign) and isinstance(s.target, ast.Name):
+            module_names.add(s.target.id)
+        elif isinstance(s, (ast.Import, ast.ImportFrom)):
+            for al in s.names:
+                module_names.add((al.asname or al.name).split(".")[0])
+    tr = _RenameLocals(module_names)
+    tr.visit(tree)
+    return ast.unparse(tree) + "\n", tr.count
+
+
+def shift_lines(src: str, n: int = 7) -> str:
+    """insert comment lines after the module docstring / __future__ imports: every line number moves"""
+    lines = src.split("\n")
+    tree = ast.parse(src)
+    at = 0
+    for s in tree.body:
+        if isinstance(s, ast.Expr) and isinstance(s.value, ast.Constant) and isinstance(s.value.value, str):
+            at = s.end_lineno
+        elif isinstance(s, ast.ImportFrom) and s.module == "__future__":
+            at = s.end_lineno
+        else:
+            break
+    pad = ["# neutral variant: shifted lines"] * n
+    return "\n".join(lines[:at] + pad + lines[at:])
+
+
+class _SwapIfElse(ast.NodeTransformer):
+    """`if c: A else: B` -> `if not c: B else: A` for two-armed ifs without elif"""
+
+    def __init__(self, every=3):
+        self.i = 0
+        self.every = every
+        self.count = 0
+
+    def visit_If(self, node):
+        self.generic_visit(node)
+        if node.orelse and not (len(node.orelse) == 1 and isinstance(node.orelse[0], ast.If)):
+            self.i += 1
+            if self.i % self.every == 0:
+                self.count += 1
+                test = node.test.operand if isinstance(node.test, ast.UnaryOp) and isinstance(node.test.op, ast.Not) else ast.UnaryOp(op=ast.Not(), operand=node.test)
+                return ast.If(test=test, body=node.orelse, orelse=node.body)
+        return node
+
+
+def swap_if_else(src: str) -> tuple[str, int]:
+    tree = ast.parse(src)
+    tr = _SwapIfElse()
+    tree = ast.fix_missing_locations(tr.visit(tree))
+    return ast.unparse(tree) + "\n", tr.count
+
+
+def unparse_only(src: str) -> str:
+    """normalise formatting through ast.unparse (quotes, parentheses, line breaks change; semantics do not)"""
+    return ast.unparse(ast.parse(src)) + "\n"
+
+
+def neutral_variants(root: pathlib.Path):
+    pkg = root / "nix_manipulator"
+    files = sorted(p for p in pkg.rglob("*.py"))
+    out = []
+    all_shift = {}
+    all_unparse = {}
+    for p in files:
+        rel = p.relative_to(root).as_posix()
+        src = p.read_text()
+        all_shift[rel] = shift_lines(src)
+        all_unparse[rel] = unparse_only(src)
+    out.append(("shift-lines:all-files", all_shift))
+    out.append(("reformat-unparse:all-files", all_unparse))
+    for p in files:
+        rel = p.relative_to(root).as_posix()
+        src = p.read_text()
+        new, n = rename_locals(src)
+        if n >= 5:
+            out.append((f"rename-locals:{rel}", {rel: new}))
+        new, n = swap_if_else(src)
+        if n >= 2:
+            out.append((f"swap-if-else:{rel}", {rel: new}))
+    return out
+
+
+# ----------------------------------------------------------------------------------------------- breaking variants
+def seeded_variants(root: pathlib.Path, prop: str):
+    """overlays produced by the confirmed seeded patches of this property"""
+    out = []
+    sd = VERIF / "seeded"
+    if not sd.is_dir():
+        return out
+    for d in sorted(sd.iterdir()):
+        mp = d / "meta.json"
+        if not mp.exists():
+            continue
+        meta = json.loads(mp.read_text())
+        if meta.get("property") != prop or meta.get("static_reach") == "out-of-reach":
+            continue
+        files = meta.get("files") or []
+        tmp = pathlib.Path(tempfile.mkdtemp(prefix="variant_"))
+        try:
+            for rel in files:
+                rel = rel[rel.index("nix_manipulator/"):] if "nix_manipulator/" in rel else rel
+                (tmp / rel).parent.mkdir(parents=True, exist_ok=True)
+                shutil.copy(root / rel, tmp / rel)
+            r = subprocess.run(["patch", "-p1", "-s", "-i", str(d / "patch.diff")], cwd=tmp, capture_output=True, text=True)
+            if r.returncode != 0:
+                continue
+            overlay = {}
+            for p in tmp.rglob("*.py"):
+                overlay[p.relative_to(tmp).as_posix()] = p.read_text()
+            out.append((f"seeded:{d.name}", overlay))
+        finally:
+            shutil.rmtree(tmp, ignore_errors=True)
+    return out
+
+
+# ----------------------------------------------------------------------------------------------- evaluation
+def _finding_keys(prop: str, root: str, overlay: dict):
+    from sa.check import analyse
+    from sa.model import AnalysisError
+    try:
+        res = analyse(prop, Program(root, overlay=overlay))
+    except AnalysisError as exc:
+        return ("ANALYSIS-ERROR", str(exc)[:200])
+    except Exception as exc:  # pragma: no cover
+        return ("CRASH", repr(exc)[:200])
+    if res.unclassified:
+        return ("UNCLASSIFIED", res.unclassified[:3], sorted((f.rule,) + tuple(str(k) for k in f.key) for f in res.findings))
+    return ("OK", sorted((f.rule,) + tuple(str(k) for k in f.key) for f in res.findings))
+
+
+def _work(args):
+    prop, root, name, overlay = args
+    return name, _finding_keys(prop, root, overlay)
 
 
 def run(prop: str, seed: int) -> dict:
-    return {"variants": 0, "breaking": 0, "neutral": 0, "mismatches": [], "matrix": []}
+    root = repo_root()
+    base = _finding_keys(prop, str(root), {})
+    neutral = neutral_variants(root)
+    breaking = seeded_variants(root, prop)
+    rnd = random.Random(seed)
+    rnd.shuffle(neutral)
+    jobs = [(prop, str(root), n, ov) for n, ov in neutral] + [(prop, str(root), n, ov) for n, ov in breaking]
+    with ProcessPoolExecutor(max_workers=min(16, os.cpu_count() or 4)) as ex:
+        results = dict(ex.map(_work, jobs))
+    matrix, mismatches = [], []
+    base_keys = set(map(tuple, base[1])) if base[0] == "OK" else set()
+    for n, _ in neutral:
+        r = results[n]
+        same = r[0] == "OK" and set(map(tuple, r[1])) == base_keys
+        matrix.append({"variant": n, "kind": "neutral", "expected": "same findings as the pristine tree", "observed": r[0],
+                       "ok": same})
+        if not same:
+            extra = sorted(set(map(tuple, r[-1])) - base_keys)[:3] if r[0] in ("OK", "UNCLASSIFIED") and isinstance(r[-1], list) else r[1]
+            mismatches.append({"variant": n, "expected": "silent (neutral rewrite)", "observed": f"{r[0]}: {extra}"})
+    for n, _ in breaking:
+        r = results[n]
+        new = r[0] in ("OK", "UNCLASSIFIED") and bool(set(map(tuple, r[-1])) - base_keys)
+        matrix.append({"variant": n, "kind": "breaking", "expected": "new violation", "observed": r[0], "ok": new})
+        if not new:
+            mismatches.append({"variant": n, "expected": "new violation (seeded breakage)", "observed": f"{r[0]}: no new finding"})
+    return {"variants": len(jobs), "neutral": len(neutral), "breaking": len(breaking), "mismatches": mismatches, "matrix": matrix,
+            "baseline": base[0]}
